@@ -184,7 +184,7 @@ def run(ctx):
     # ---- waveforms through histories (slack, borrowed buffers, names cache) -----------------------------------------------
     world = H.World(rng)
     w = {"appa": 3, "appw": 2, "load": 3, "setcount": 2, "setcap": 2, "settiming": 2, "write": 1, "get": 0, "pickle": 4, "bad": 0}
-    n_hist = 120 if ctx.quick else 1200
+    n_hist = 600 if ctx.quick else 3000
     for i in range(n_hist):
         kind = ["analog", "complex", "spectrum", "digital"][i % 4]
         name = H.gen_history(world, kind, rng.randint(1, 10 if ctx.quick else 30), weights=w)
